@@ -4,7 +4,7 @@
    The model (C12_Model: Connector + client side of TcpClient + the TcpConnection life cycle it touches) is tied to
    muduo/net/Connector.cc, TcpClient.cc by bin/check C12 (differential execution, regenerated facts Gen_C12/Gen_Consts). *)
 From Coq Require Import List ZArith Lia Bool Arith.
-From Muduo Require Import Gen_Consts Gen_C12 C12_Model C12_Hyg C12_Trace C12_Inv C12_Proofs C12_Loop.
+From Muduo Require Import Gen_Consts Gen_C12 C12_Model C12_Hyg C12_Trace C12_Inv C12_Proofs C12_Loop C12_Progress.
 Import ListNotations.
 Local Open Scope Z_scope.
 
@@ -86,7 +86,8 @@ Print Assumptions C12_stop_silences.
 (* ---- histories under the hypothesis the property states, made precise (C12_Model.contract):
         connect() only when Idle (state kDisconnected, no channel, no connection, no other connect() in flight,
         no retry timer pending, delay at its initial value); timers `timely`;
-        ~TcpClient on the loop thread, with a connection only while no functor of the Connector is queued.
+        ~TcpClient on the loop thread, with a connection only while no functor of the Connector is queued;
+        the user does not drop the last reference of a connection that is still up (release_ok).
         `admissible init l`: every executed step of l satisfies the contract (rejected ops did not happen). *)
 
 (* destroy_safe_on_loop / crash freedom: no step of an admissible history is a Fault, i.e. no assert of
@@ -166,6 +167,48 @@ Example C12_live_loop_examples :
   (~ ladmissible 0 init [Destroy; TimerFire; RunPending] /\ ~ ladmissible 0 init [Connect; EvError; TimerFire]).
 Proof. exact (conj live_loop_examples stalled_not_live). Qed.
 
+(* ---- progress halves (the trace theorems above are safety: they constrain an event IF it occurs) *)
+
+(* a failed attempt (SO_ERROR, self-connect, POLLERR) closes the socket and, iff connect_ is set, arms the retry timer with the
+   current delay for now + delay in that very step and doubles the delay (capped) *)
+Theorem C12_failed_attempt_arms : forall s i o, reachable s -> k_chan s = Some (i, true) -> k_dead s = false -> is_failure o ->
+  exists s' ev, step s o = Ok s' ev /\ In (EvClose i) ev /\ k_state s' = KDisconnected /\
+    (k_connect s = true -> In (EvArm (k_delay s)) ev /\ timers s' = timers s ++ [(now s + k_delay s, TRetry)] /\
+                           k_delay s' = Z.min (2 * k_delay s) 30000) /\
+    (k_connect s = false -> timers s' = timers s /\ forall d, ~ In (EvArm d) ev).
+Proof. exact failed_attempt_arms. Qed.
+Print Assumptions C12_failed_attempt_arms.
+
+Theorem C12_refused_connect_arms : forall s e r, k_state s = KDisconnected -> k_connect s = true -> kq s = e :: r -> classify e = ActRetry ->
+  exists s', startInLoop s = Some (s', [EvAttempt (length (socks s)) e; EvClose (length (socks s)); EvArm (k_delay s)]) /\
+             timers s' = timers s ++ [(now s + k_delay s, TRetry)] /\ k_delay s' = Z.min (2 * k_delay s) 30000 /\ k_state s' = KDisconnected.
+Proof. exact refused_connect_arms. Qed.
+Print Assumptions C12_refused_connect_arms.
+
+(* the expiry of the retry timer with connect_ set creates a new socket and attempts to connect *)
+Theorem C12_timer_fires_attempt : forall s d, reachable s -> timely s = true -> In (d, TRetry) (timers s) ->
+  (forall t0, min_due (timers s) = Some t0 -> d <= Z.max (now s) t0) -> k_connect s = true ->
+  exists s' ev e, step s TimerFire = Ok s' ev /\ In (EvAttempt (length (socks s)) e) ev.
+Proof. exact timer_fires_attempt. Qed.
+Print Assumptions C12_timer_fires_attempt.
+
+(* a completing attempt (writable, SO_ERROR 0, not a self-connect) with connect_ set reports the connection in that step *)
+Theorem C12_success_reports_up : forall s i, reachable s -> k_chan s = Some (i, true) -> k_dead s = false -> k_connect s = true ->
+  exists s' g, step s (EvWritable 0 false) = Ok s' ([EvHandOver i; EvUp (length (conns s))] ++ g) /\ Forall is_connclose g /\
+    connection s' = Some (length (conns s)) /\ k_state s' = KConnected /\ length (conns s') = S (length (conns s)).
+Proof. exact success_reports_up. Qed.
+Print Assumptions C12_success_reports_up.
+
+(* exactly one: whenever the environment lets an attempt succeed while the connection is wanted (visible hypotheses: the
+   history so far is admissible, a channel is registered, connect_ is set, and the next event is the successful completion),
+   the current cycle has exactly one UP (ups_after 0 = number of UPs since the last cycle start) *)
+Theorem C12_exactly_one_up : forall l s0 ev0 i, admissible init l -> run init l = Some (s0, ev0) ->
+  k_chan s0 = Some (i, true) -> k_dead s0 = false -> k_connect s0 = true ->
+  exists s ev, run init (l ++ [EvWritable 0 false]) = Some (s, ev) /\ ups_after 0 ev = 1%nat /\
+               connection s = Some (length (conns s0)) /\ admissible init (l ++ [EvWritable 0 false]).
+Proof. exact exactly_one_up. Qed.
+Print Assumptions C12_exactly_one_up.
+
 (* ---- the findings: what the property text allows and the code does not survive *)
 Theorem C12_stop_then_connect_refuted :
   (text_admissible init w_f10 /\ run init w_f10 = None) /\
@@ -197,6 +240,11 @@ Theorem C12_foreign_destroy_refuted :
   (text_admissible init w_f13c /\ run init w_f13c = None).
 Proof. exact foreign_destroy_refuted. Qed.
 Print Assumptions C12_foreign_destroy_refuted.
+
+(* the user drops the last reference of a connection that ~TcpClient left to him while it is still up *)
+Theorem C12_release_after_destroy_refuted : text_admissible init w_release /\ run init w_release = None.
+Proof. exact release_after_destroy_refuted. Qed.
+Print Assumptions C12_release_after_destroy_refuted.
 
 Theorem C12_stalled_loop_refuted :
   run init [Destroy; TimerFire; RunPending] = None /\ run init [Connect; EvError; TimerFire] = None.
